@@ -33,6 +33,7 @@ THEOREMS = [
     "Typedpy.C16.C16_signature_statement_holds",
     "Typedpy.C16.fixed_inherited_addl_example",
     "Typedpy.C16.fixed_inherited_addl_off_example",
+    "Typedpy.C16.stub_kw_apd_declared", "Typedpy.C16.stub_kw_apd_undeclared",
     "Typedpy.C16.stubD_names_agree_iff",
     "Typedpy.C16.stubD_required_agree",
     "Typedpy.C16.stubD_kw_iff",
@@ -54,13 +55,18 @@ RULE = ("generated modules: 2-7 Structure classes (annotation and assignment sty
         "default kind (none, literal, None, class, lambda, named function, functools.partial, callable instance, mutable "
         "literal), each compared by name and kind with inspect.signature; additional_properties_default in "
         "{True, False}; every module through the real create_stub_for_file, ast.parse, parameter extraction; "
-        "byte-identity under 1-2 other PYTHONHASHSEEDs in fresh interpreters; a case is non-trivial if a class has "
+        "byte-identity under 1-2 other PYTHONHASHSEEDs in fresh interpreters; Enum fields over plain values (hostile strings: quotes, backslashes, "
+        "line breaks, non-ASCII, brackets; list / tuple / Enum[...] / SET-valued under other hash seeds); shared-ancestor hierarchies (6 diamond shapes, "
+        "overriding along one branch, flags anywhere, the constant-shadowing family); stub default != runtime default; subclasses of classes with a "
+        "user-written __init__; per module every def/class header of the real stub and ~8 token-level mutations of them through the Lean lexer + "
+        "recogniser and CPython's ast.parse; a case is non-trivial if a class has "
         ">= 2 own fields or a non-trivial base; distinct by sha256 of the canonical case")
 ASSUMPTIONS = [
-    "partial property: file I/O, import resolution and 'parses as Python' are decided by running CPython (ast.parse), not by the model",
-    "class hierarchies are tree-shaped (no shared Structure ancestor): the model's MRO is the depth-first pre-order",
-    "the stub is generated with additional_properties_default equal to TypedPyDefaults.additional_properties_default",
-    "classes that inherit a user-written __init__ are outside the generated domain",
+    "partial property: file I/O, import resolution, module constants / enum bodies / import lines and the character-level lexer are decided or corresponded by running CPython (ast.parse, compile, tokenize), not proved",
+    "the recogniser models the token / expression subset the generator writes (names, subscriptions, list displays, literals, `...`; no operators, calls, slices, starred items, parentheses inside parameter lists)",
+    "how a Field becomes an annotation (get_type_info) is not modelled: annotation ASTs are read off the real get_type_info per case and universally quantified in the theorems",
+    "tree-shaped hierarchies: theorems by induction over the whole hierarchy (Sem/Stub.lean); shared ancestors / diamonds: one-step theorems over Sem/Define.lean worlds (Sem/StubDefine.lean)",
+    "classes that inherit a user-written __init__: the stub is compared with inspect.signature(cls) only",
     "TypedPyDefaults.additional_properties_default does not change between the definition of a base and of its subclasses",
 ]
 TRUSTED_EXTRA = [
@@ -71,14 +77,14 @@ TRUSTED_EXTRA = [
 
 def cases(rng, tier):
     S.reset_work()
-    cs = ([json.loads(json.dumps(c)) for c in S.CORPUS] + S.zoo_cases(rng, tier) + S.sig_cases(rng, tier) + S.const_cases(rng, tier) + S.mi_cases(rng, tier) + S.enumvals_cases(rng, tier)
+    cs = ([json.loads(json.dumps(c)) for c in S.CORPUS] + S.zoo_cases(rng, tier) + S.sig_cases(rng, tier) + S.const_cases(rng, tier) + S.mi_cases(rng, tier) + S.enumvals_cases(rng, tier) + S.diamond_cases(rng, tier) + S.apd_cases(rng, tier) + S.inh_init_cases(rng, tier)
           + S.gen_cases(rng, tier, 450 if tier == "quick" else 6000))
     S.prepare(cs)
     return cs
 
 
 def search_cases(rng, tier):
-    cs = S.zoo_cases(rng, tier) + S.sig_cases(rng, tier) + S.const_cases(rng, tier) + S.mi_cases(rng, tier) + S.enumvals_cases(rng, tier) + S.gen_cases(rng, "thorough", 150)
+    cs = S.zoo_cases(rng, tier) + S.sig_cases(rng, tier) + S.const_cases(rng, tier) + S.mi_cases(rng, tier) + S.enumvals_cases(rng, tier) + S.diamond_cases(rng, tier) + S.apd_cases(rng, tier) + S.inh_init_cases(rng, tier) + S.gen_cases(rng, "thorough", 150)
     S.prepare(cs)
     return cs
 
@@ -155,10 +161,24 @@ def judge(case, impl, model):
             fails.append(("uncompilable-stub:other", f"generated .pyi parses but does not compile: {ce['msg']} at `{ce['line']}`"))
     stub = impl["stub"]["classes"]
     mclasses = {c["name"]: c for c in model["classes"]}
+    dclasses = {c["name"]: c for c in model.get("classesD", [])}
     table = impl["table"]
+    nontree = set(impl.get("nontree", []))
     for ti, name in zip(impl["targets"], specs):
         rv = impl["runtime"][name]
         mc = mclasses.get(name)
+        dc = dclasses.get(name)
+        if ti in nontree:
+            mc = dc         # shared ancestor: the Define-based model (C3) is the model of this class
+        elif dc is not None:
+            # tree-shaped: the two models of the same code must agree with each other
+            for k in ("init", "shallowClone", "fromOtherClass", "fromTrustedData", "consts", "fieldOrder",
+                      "admitsExtra", "inheritedAddlOn", "inheritedAddlOff"):
+                if mc[k] != dc[k]:
+                    msgs.append(f"{name}: tree model and Define-based model differ in {k}: {mc[k]} / {dc[k]}")
+            if sorted(mc["runtime"]["params"]) != sorted(dc["runtime"]["params"]) or mc["runtime"]["kw"] != dc["runtime"]["kw"] \
+                    or sorted(set(mc["required"])) != sorted(set(dc["required"])):
+                msgs.append(f"{name}: tree model and Define-based model differ in the runtime signature / _required")
         sc = stub.get(name)
         ff = final_fields(table, ti)
         # ---- correspondence: model of the runtime side vs the real class
@@ -220,7 +240,13 @@ def judge(case, impl, model):
             if in_consts:
                 fails.append(("constant-in-stub:init", f"{name}: Constant field(s) {in_consts} are keyword parameters of the stub __init__"))
             elif set(sn) != rt_names:
-                fails.append(("names-mismatch:init", f"{name}: stub __init__ keywords {sorted(sn)} != runtime-accepted {sorted(rt_names)}"))
+                if dc is not None and not dc["namesCovered"] and ti in nontree:
+                    fails.append(("names-mismatch:constant-shadowed-in-diamond",
+                                  f"{name}: stub __init__ keywords {sorted(sn)} != inspect.signature names {sorted(rt_names)}: a base "
+                                  "took the name for a Constant (its signature drops it) while this class resolves it to "
+                                  "another branch's Field"))
+                else:
+                    fails.append(("names-mismatch:init", f"{name}: stub __init__ keywords {sorted(sn)} != runtime-accepted {sorted(rt_names)}"))
             for n, d in init["pos"]:
                 if n not in rt_names:
                     continue
@@ -241,7 +267,8 @@ def judge(case, impl, model):
                     fails.append(("param-order:init", f"{name}: mandatory parameter {n} after an optional one"))
                     break
             # the `**` clause against inspect.signature(cls) (the observation point named by the property)
-            if init["kw"] != rv["sigkw"] and not (known_kw and init["kw"]):
+            if init["kw"] != rv["sigkw"] and not (known_kw and init["kw"]) and not (
+                    case["apd"] != case["dflt"] and not mc.get("addlDeclared", True)):
                 if mc["inheritedAddlOff"] and rv["sigkw"] and not init["kw"] and admits is False:
                     fails.append(("inherited-additional-properties-off:signature-kwargs",
                                   f"{name}: inspect.signature(cls) has **kwargs, the stub __init__ has no **kw; the "
@@ -250,7 +277,10 @@ def judge(case, impl, model):
                 else:
                     fails.append(("kw-mismatch:signature",
                                   f"{name}: stub **kw={init['kw']}, inspect.signature **kwargs={rv['sigkw']}, admits={admits}"))
-            if admits is not None and init["kw"] != admits:
+            by_config = case["apd"] != case["dflt"] and not mc.get("addlDeclared", True)
+            if admits is not None and init["kw"] != admits and by_config:
+                pass        # the flag is declared nowhere: the stub's `**` clause is the configured apd
+            elif admits is not None and init["kw"] != admits:
                 if known_kw and init["kw"] and not admits:
                     fails.append(("inherited-additional-properties",
                                   f"{name}: stub __init__ has **kw, the constructor rejects unknown keywords "
@@ -277,13 +307,18 @@ def judge(case, impl, model):
             if not ok_shape:
                 fails.append((f"helper-shape:{mname}", f"{name}: {h}"))
             hn = [n for n, _ in fields]
-            if set(hn) != rt_names or len(hn) != len(set(hn)):
+            if set(hn) != rt_names and dc is not None and not dc["namesCovered"] and ti in nontree:
+                fails.append(("names-mismatch:constant-shadowed-in-diamond",
+                              f"{name}.{mname}: field keywords {sorted(hn)} != inspect.signature names {sorted(rt_names)}"))
+            elif set(hn) != rt_names or len(hn) != len(set(hn)):
                 fails.append((f"helper-names-mismatch:{mname}",
                               f"{name}: field keywords {sorted(hn)} != runtime-accepted {sorted(rt_names)}"))
             if not all(d for _, d in fields):
                 fails.append((f"helper-default-missing:{mname}",
                               f"{name}: {[n for n, d in fields if not d]} have no default"))
-            if admits is not None and h["kw"] != admits:
+            if admits is not None and h["kw"] != admits and case["apd"] != case["dflt"] and not mc.get("addlDeclared", True):
+                pass
+            elif admits is not None and h["kw"] != admits:
                 if known_kw and h["kw"] and not admits:
                     fails.append(("inherited-additional-properties", f"{name}.{mname}: **kw although unknown keywords are rejected"))
                 else:
@@ -325,6 +360,13 @@ def judge(case, impl, model):
                     msgs.append(f"{c['name']}.{k} text: model writes `{e['model'][:200]}`, the stub has something else")
             if c["attrBad"]:
                 msgs.append(f"{c['name']}: attribute lines {c['attrBad']} differ from the model's text")
+        for qn, m in zip(tp.get("meths", []), mt.get("meths", [])):
+            if not m["valid"]:
+                msgs.append(f"{qn}: inspect.signature reports a parameter list the model calls illegal")
+            elif not m["eq"]:
+                msgs.append(f"{qn} text: model writes `{m['model'][:200]}`, the stub has something else")
+            elif not m["roundtrip"]:
+                msgs.append(f"{qn}: printed signature `{m['model'][:200]}` does not parse back to itself")
     # ---- every function / method signature: same parameter names and kinds as inspect.signature
     site_of = {}
     for it in case["mod"]["items"]:
